@@ -292,7 +292,8 @@ _proj_inner = [
     # pivot bookkeeping (positions are taken in scan order: iscan(i) is the time at which row i is visited)
     'implies(not update, p == 0 and not extend)',
     'implies(not update, forall(i, 0, N + r, implies(iscan(i, r, N) < jj, not anti(%s[i], %s, N))))' % (_G0, _obs),
-    'implies(update, 0 <= p < N + r and iscan(p, r, N) < jj and anti(%s[p], %s, N))' % (_G0, _obs),
+    'implies(update, 0 <= p < N + r and iscan(p, r, N) < jj)',
+    'implies(update, anti(%s[p], %s, N))' % (_G0, _obs),
     'implies(update, forall(i, 0, N + r, implies(iscan(i, r, N) < iscan(p, r, N), not anti(%s[i], %s, N))))' % (_G0, _obs),
     'implies(update, iff(extend, not (r <= p and p < N)))',
     # rows: visited after the pivot and anticommuting -> multiplied by the pivot row; everything else untouched
@@ -309,6 +310,19 @@ _gram_hints = [
     ('forall_lemma', [('i', '0', '2 * N')], 'acq_antisym', ['%s[i]' % _G0, _obs, 'N']),
     ('lemma', 'acq_antisym', [_obs, _obs, 'N']),
 ]
+def _gram_after_pivot(p, q):
+    """ghost assertion after `gs_stb[q] = gs_stb[p]; gs_stb[p] = gs_obs[k]`: the Gram structure holds again.
+    Proved from: Gram structure of the tableau at the start of the scan, the row-level effect of the scan, the pivot facts and
+    bilinearity / antisymmetry instances -- and nothing else."""
+    G0, obs = _G0, _obs
+    rows = ('forall(i, 0, 2 * N, same(gs_stb[i], %s) if i == %s else (same(gs_stb[i], %s[%s]) if i == %s else '
+            '(same(gs_stb[i], Xor(%s[i], %s[%s])) if anti(%s[i], %s, N) else same(gs_stb[i], %s[i]))))'
+            % (obs, p, G0, p, q, G0, G0, p, G0, obs, G0))
+    return ('assert_from', 'gram(gs_stb, N)',
+            ['gram(%s, N)' % G0, rows, '0 <= %s < 2 * N' % p, '%s == (%s + N if %s < N else %s - N)' % (q, p, p, p),
+             'anti(%s[%s], %s, N)' % (G0, p, obs), 'N >= 1'] + _subst_p(_gram_hints, p))
+
+
 def _subst_p(hints, name):
     out = []
     for h in hints:
@@ -338,5 +352,113 @@ CONTRACTS[U + 'stabilizer_project'] = dict(
            1: dict(var='jj', invariant=_proj_inner)},
     # ghost code before `if extend:` (the 6th if of the function): after the pivot replacement the Gram structure holds
     # again (bilinearity instances for the rows that were multiplied by the pivot); the swaps then only permute pairs
-    hints={'if5.before': [('assert_using', 'gram(gs_stb, N)', _subst_p(_gram_hints, 'p'))]},
+    hints={'if5.before': [_gram_after_pivot('p', 'q')]},
+)
+
+# ------------------------------------------------------------------ C05 / C06: the measurement kernel
+LEMMAS['ipow_parity'] = dict(
+    doc='the product of two Pauli strings picks up an odd power of i exactly when they anticommute (per-qubit table, induction)',
+    params=[('a', 'int1'), ('b', 'int1'), ('n', 'int')],
+    requires=['bits(a, 2 * n)', 'bits(b, 2 * n)'],
+    ensures=['(IpowSum(a, b, n) - AcqSum(a, b, n)) % 2 == 0'],
+    induction='n',
+)
+PREDS['inv_state'] = (('G', 'P', 'r', 'N'), ['rows(G) == 2 * N', 'cols(G) == 2 * N', 'len(P) == 2 * N', '0 <= r <= N', 'bits2(G)', 'gram(G, N)',
+                                             'forall(a, r, N, P[a] == 0 or P[a] == 2)'])
+_P0 = "at('loop1.pre', ps_stb)"
+_sel = 'DestabSel(%s, %s, r, N)' % (_G0, _obs)
+_meas_inner = _proj_inner + [
+    'len(ps_stb) == 2 * N', 'len(ga) == 2 * N', 'len(out) == L', 'len(ps_obs) == L',
+    # phases: stabilizer rows (index < N) that were multiplied by the pivot row carry the product phase, all others are untouched
+    'forall(i, 0, 2 * N, '
+    'ps_stb[i] == (%s[i] + %s[p] + IpowSum(%s[i], %s[p], N)) %% 4 '
+    'if (i < N and iscan(i, r, N) < jj and update and iscan(i, r, N) > iscan(p, r, N) and anti(%s[i], %s, N)) '
+    'else ps_stb[i] == %s[i])' % (_P0, _P0, _G0, _G0, _G0, _obs, _P0),
+    # accumulation of the destabilizer-selected active stabilizers while no pivot has been found
+    'implies(not update, pa == OrdP(%s, %s, %s, jj - N, N))' % (_sel, _G0, _P0),
+    'implies(not update, forall(c, 0, 2 * N, ga[c] == OrdG(%s, %s, jj - N, c)))' % (_sel, _G0),
+    'implies(not update, bits(ga, 2 * N))',
+]
+_meas_outer = ['rows(gs_stb) == 2 * N', 'cols(gs_stb) == 2 * N', 'len(ps_stb) == 2 * N', 'bits2(gs_stb)', 'gram(gs_stb, N)', '0 <= r <= N',
+               'forall(a, r, N, ps_stb[a] == 0 or ps_stb[a] == 2)',
+               'cols(gs_obs) == 2 * N', 'len(ps_obs) == L', 'r <= old(r)', 'len(out) == L', 'len(ga) == 2 * N',
+               'forall(kk, 0, k, out[kk] == 0 or out[kk] == 1)']
+# deterministic branch: no row of index < N + r anticommutes; then obs xor ga commutes with every row of the tableau, hence
+# (symplectic completeness, the one assumed bridge lemma) it is the identity string, i.e. ga == obs
+_w = 'Xor(%s, ga)' % _obs
+_det_hints = [
+    ('forall_lemma', [('i', '0', '2 * N')], 'ordg_acq', [_sel, _G0, 'N', '%s[i]' % _G0, 'N']),
+    ('forall_lemma', [('i', '0', '2 * N')], 'selacq_gram', [_sel, _G0, 'N', 'i', 'N']),
+    ('forall_lemma', [('i', '0', '2 * N')], 'acqsum_ext', ['ga', 'OrdGRow(%s, %s, N)' % (_sel, _G0), '%s[i]' % _G0, 'N']),
+    ('forall_lemma', [('i', '0', '2 * N')], 'acq_bilinear', [_obs, 'ga', '%s[i]' % _G0, 'N']),
+    ('lemma', 'symplectic_complete', [_G0, _w, 'N']),
+    ('assert_from', 'forall(c, 0, 2 * N, ga[c] == %s[c])' % _obs,
+     ['forall(c, 0, 2 * N, %s[c] == 0)' % _w, 'bits(ga, 2 * N)', 'bits(%s, 2 * N)' % _obs]),
+]
+CONTRACTS[U + 'stabilizer_measure'] = dict(
+    params=[('gs_stb', 'int2'), ('ps_stb', 'int1'), ('gs_obs', 'int2'), ('ps_obs', 'int1'), ('r', 'int')],
+    requires=['cols(gs_obs) % 2 == 0', 'inv_state(gs_stb, ps_stb, r, cols(gs_obs) // 2)', 'bits2(gs_obs)', 'len(ps_obs) == rows(gs_obs)',
+              'herms1(ps_obs)'],
+    ensures=['inv_state(gs_stb, ps_stb, result[2], cols(gs_obs) // 2)', '0 <= result[2] <= r',
+             'len(result[3]) == rows(gs_obs)', 'forall(kk, 0, rows(gs_obs), result[3][kk] == 0 or result[3][kk] == 1)'],
+    modifies=['gs_stb', 'ps_stb'], returns=('=gs_stb', '=ps_stb', 'int', 'int1 fresh', 'real'),
+    loops={0: dict(var='k', invariant=_meas_outer,
+                   hints_end=[
+                       # Hermitian phases of the active stabilizers: a product of two commuting Hermitian strings is Hermitian
+                       ('forall_lemma', [('i', '0', 'N')], 'ipow_parity', ['%s[i]' % _G0, "%s[at('if6.before', p)]" % _G0, 'N']),
+                       ('assert_from', 'gram(gs_stb, N)',
+                        ["gram(at('if6.before', gs_stb), N)", 'q == (at(\'if6.before\', p) + N if at(\'if6.before\', p) < N else at(\'if6.before\', p) - N)',
+                         's == r + N', '0 <= r < N', "at('if6.before', p) != r", 'q != r',
+                         "forall(i, 0, 2 * N, same(gs_stb[i], at('if6.before', gs_stb)[r if i == at('if6.before', p) else (at('if6.before', p) if i == r else (s if i == q else (q if i == s else i)))]))"],
+                        ["at('if6.before', p) < N", "at('if6.before', p) >= N"], 'optional'),
+                       ('assert_from', 'gram(gs_stb, N)', ["gram(at('if6.before', gs_stb), N)"],
+                        ["at('if6.before', p) < N", "at('if6.before', p) >= N"])]),
+           1: dict(var='jj', invariant=_meas_inner,
+                   hints_head=[('lemma?', 'ipowsum_ext', ['ga', 'OrdGRow(%s, %s, jj - N)' % (_sel, _G0), 'gs_stb[jj - N]', 'N'])])},
+    hints={'if6.before': [_gram_after_pivot('p', 'q')],
+           'assert1': _det_hints},
+)
+
+# ------------------------------------------------------------------ lemmas for the deterministic branch (ga == obs)
+LEMMAS['ordg_bits'] = dict(
+    doc='the string part of an ordered product of bit strings is a bit string',
+    params=[('sel', 'int1'), ('G', 'int2'), ('n', 'int'), ('c', 'int')],
+    requires=[],
+    ensures=['0 <= OrdG(sel, G, n, c) <= 1'],
+    induction='n',
+)
+LEMMAS['acq_zero'] = dict(
+    doc='the symplectic form with the identity string vanishes',
+    params=[('x', 'int1'), ('z', 'int1'), ('n', 'int')],
+    requires=['forall(c, 0, 2 * n, z[c] == 0)'],
+    ensures=['AcqSum(x, z, n) == 0', 'AcqSum(z, x, n) == 0'],
+    induction='n',
+)
+LEMMAS['ordg_acq'] = dict(
+    doc='the symplectic form of x with an ordered product is the sum (mod 2) of its forms with the selected rows',
+    params=[('sel', 'int1'), ('G', 'int2'), ('n', 'int'), ('x', 'int1'), ('N', 'int')],
+    requires=['N >= 0', 'bits(x, 2 * N)', 'forall(i, 0, n, bits(G[i], 2 * N))'],
+    ensures=['(AcqSum(x, OrdGRow(sel, G, n), N) - SelAcq(sel, G, n, x, N)) % 2 == 0'],
+    induction='n',
+    uses_step=[('forall_lemma', [('c', '0', '2 * N')], 'ordg_bits', ['sel', 'G', 'n - 1', 'c']),
+               ('lemma', 'acq_bilinear', ['OrdGRow(sel, G, n - 1)', 'G[n - 1]', 'x', 'N']),
+               ('lemma?', 'acqsum_ext', ['OrdGRow(sel, G, n)', 'Xor(OrdGRow(sel, G, n - 1), G[n - 1])' , 'x', 'N']),
+               ('lemma?', 'acqsum_ext', ['OrdGRow(sel, G, n)', 'OrdGRow(sel, G, n - 1)', 'x', 'N'])],
+    uses=[('lemma', 'acq_zero', ['x', 'OrdGRow(sel, G, n)', 'N'])],
+)
+LEMMAS['selacq_gram'] = dict(
+    doc='for a row of a valid tableau only its partner row contributes to the selected sum',
+    params=[('sel', 'int1'), ('G', 'int2'), ('n', 'int'), ('i', 'int'), ('N', 'int')],
+    requires=['gram(G, N)', '0 <= i < 2 * N', 'n <= N'],
+    ensures=['SelAcq(sel, G, n, G[i], N) % 2 == b2i(N <= i and i < N + n and sel[i - N] != 0)'],
+    induction='n',
+)
+LEMMAS['symplectic_complete'] = dict(
+    doc='a string that commutes with all 2N rows of a valid tableau is the identity string',
+    axiom='mathematical bridge (not proved here): the rows of a valid tableau satisfy M Omega M^T = Omega over GF(2), hence M is '
+          'invertible and v -> M Omega v is injective; standard (Aaronson-Gottesman 2004, Prop. 1/3)',
+    params=[('G', 'int2'), ('w', 'int1'), ('N', 'int')],
+    requires=['gram(G, N)', 'bits2(G)', 'rows(G) == 2 * N', 'cols(G) == 2 * N', 'bits(w, 2 * N)',
+              'forall(i, 0, 2 * N, AcqSum(G[i], w, N) % 2 == 0)'],
+    ensures=['forall(c, 0, 2 * N, w[c] == 0)'],
 )
